@@ -92,6 +92,7 @@ def refOp (G : Nat) (r : Ref) : Op → Ref
     if r.gatedT then (if r.tPh = .conc then { r with tPh := .post } else r)
     else (if r.mPh = .conc then { r with mPh := .post } else r)
   | .Y => r
+  | .XM | .XT | .XP => r     -- a self-set is documented to be a no-op (it only logs an error)
   | .par _ => r
 
 def isIM : Op → Bool | .IM => true | _ => false
